@@ -1,7 +1,7 @@
 (* C07 — results do not depend on the mole- vs mass-fraction input basis. *)
 From Coq Require Import Reals Lra List.
-From PV Require Import Num PyBase Model.Component Model.Mixture Model.Permeance Model.Solver Model.Process Model.Curve Model.Fit
-  Lemmas.Composition Lemmas.Activity Lemmas.Process Lemmas.Basis.
+From PV Require Import Num PyBase Model.Component Model.Mixture Model.Permeance Model.Solver Model.Process Model.Curve Model.Fit Model.NonIdealCurve
+  Lemmas.Composition Lemmas.Activity Lemmas.Process Lemmas.Basis Lemmas.NonIdealCurve.
 Import ListNotations.
 Local Open Scope R_scope.
 
@@ -51,6 +51,10 @@ Section C07.
     non_ideal_process ROps iso m (set_x0 cd (as_molar m w)) n dt prec ct slv f1 f2 ip
     = non_ideal_process ROps iso m (set_x0 cd (as_weight w)) n dt prec ct slv f1 f2 ip.
   Proof. exact (non_ideal_process_basis m HM1 HM2 iso cd w n dt prec ct slv f1 f2 ip). Qed.
+  Theorem C07_non_ideal_curve PP slv ea single raw1 raw2 T w delta n Tp pp ip prec ct : 0 <= w <= 1 ->
+    non_ideal_curve ROps PP m slv ea single raw1 raw2 T (as_molar m w) delta n Tp pp ip prec ct
+    = non_ideal_curve ROps PP m slv ea single raw1 raw2 T (as_weight w) delta n Tp pp ip prec ct.
+  Proof. exact (non_ideal_curve_basis PP m slv ea single raw1 raw2 T w delta n Tp pp ip prec ct HM1 HM2). Qed.
 End C07.
 
 (* process models always report feed compositions as mass fractions (later rows: C01_balance) *)
